@@ -863,8 +863,21 @@ pub fn admin_matrix(m: &ChainM, admined: &[(String, String)], code_ids: &[u64], 
     for (i, (x, admin)) in admined.iter().enumerate().take(3) {
         let code_a = code_ids[i % code_ids.len()];
         let code_b = code_ids[(i + 1) % code_ids.len()];
+        // migrations whose payload the new code cannot read (empty, an empty object), signed by the admin: no effect
+        for bytes in [Vec::new(), b"{}".to_vec()] {
+            out.push(Top::Exec { sender: admin.clone(), msg: Msg::Garbled { kind: 2, addr: x.clone(), code_id: code_b, bytes: Binary::from(bytes) }, via: ExecVia::Execute });
+        }
         // hand the contract to itself, then let it migrate itself while its migrate entry point changes the record
         out.push(Top::Exec { sender: admin.clone(), msg: Msg::UpdateAdmin { addr: x.clone(), admin: x.clone() }, via: ExecVia::Execute });
+        // a migration while one of the contract's own sub-messages is in flight: it sends the migration of itself as a
+        // sub-message with a reply — the reply (and every later call) is served by the new code
+        {
+            let nonce = next();
+            let plan = ReplyPlan { nonce, on_ok: Script { tag: next(), ..Default::default() }, on_err: Script { tag: next(), ..Default::default() } };
+            let mig = Msg::Migrate { addr: x.clone(), code_id: code_b, script: Box::new(Script { tag: next(), ..Default::default() }) };
+            let outer = Script { tag: next(), msgs: vec![Sub { id: nonce as u64, mode: if i % 2 == 0 { RMode::Always } else { RMode::Success }, payload: Payload::Plan(Box::new(plan)), msg: mig }], ..Default::default() };
+            out.push(Top::Exec { sender: other_user.to_string(), msg: Msg::Exec { addr: x.clone(), script: Box::new(outer), funds: vec![] }, via: ExecVia::Execute });
+        }
         let inner = match i % 3 {
             0 => Msg::UpdateAdmin { addr: x.clone(), admin: other_user.to_string() },
             1 => Msg::ClearAdmin { addr: x.clone() },
